@@ -119,3 +119,79 @@ v("c12-twin-spacer", "C12", VR,
 v("c12-twin-repr-fn", "C12", VR,
   "        s = s + (\".drop_columns(\" + self.column_deletions.__repr__() + \")\")",
   "        s = s + (\".drop_columns(\" + repr(self.column_deletions) + \")\")", expect="silent")
+
+# ---------------------------------------------------------------- C06
+DOU = "data_ops_utils.py"
+v("c06-merge-guard-reverted", "C06", DOU,
+  "        if len(ops2_columns_used.intersection(ops1_columns_produced)) > 0:\n            return None\n        new_ops = {k: ops1[k]",
+  "        new_ops = {k: ops1[k]")
+v("c06-merge-guard-disjoint-branch", "C06", DOU,
+  "    if len(ops2_columns_used.intersection(ops1_columns_produced)) > 0:\n        return None\n\n    # merge the extends",
+  "    # merge the extends")
+v("c06-merge-guard-wrong-operand", "C06", DOU,
+  "    if len(ops2_columns_used.intersection(ops1_columns_produced)) > 0:\n        return None\n\n    # merge the extends",
+  "    if len(ops2_columns_used.intersection(ops2_columns_produced)) > 0:\n        return None\n\n    # merge the extends")
+v("c06-merge-last-writer", "C06", DOU,
+  "    new_ops.update(new_ops2)\n    return new_ops", "    new_ops2.update(new_ops)\n    return new_ops2")
+v("c06-merge-ignores-reverse", "C06", VR,
+  "                and (order_by == self.order_by)\n                and (reverse == self.reverse)\n", "                and (order_by == self.order_by)\n")
+v("c06-merge-ignores-windowing", "C06", VR,
+  "                compatible_partition\n                and same_windowing\n", "                compatible_partition\n")
+v("c06-order-rows-delegation-drops-limit", "C06", VR,
+  "return self.sources[0].order_rows(columns, reverse=reverse, limit=limit)", "return self.sources[0].order_rows(columns, reverse=reverse)")
+v("c06-join-delegation-drops-check", "C06", VR,
+  "                jointype=jointype,\n                check_all_common_keys_in_equi_spec=check_all_common_keys_in_equi_spec,\n            )\n        return NaturalJoinNode(",
+  "                jointype=jointype,\n            )\n        return NaturalJoinNode(")
+v("c06-concat-delegation-drops-names", "C06", VR,
+  "                b, id_column=id_column, a_name=a_name, b_name=b_name\n            )", "                b, id_column=id_column\n            )")
+v("c06-select-columns-no-validation", "C06", VR,
+  "        unknown = set(columns) - set(self.column_names)\n        if len(unknown) > 0:\n            raise KeyError(\"selecting unknown columns \" + str(unknown))\n        if self.is_trivial_when_intermediate_():",
+  "        if self.is_trivial_when_intermediate_():")
+v("c06-order-always-trivial", "C06", VR,
+  "        Return if True if operator can be eliminated from interior of chain.\n        \"\"\"\n        return self.limit is None",
+  "        Return if True if operator can be eliminated from interior of chain.\n        \"\"\"\n        return True")
+v("c06-order-trivial-flipped", "C06", VR,
+  "        Return if True if operator can be eliminated from interior of chain.\n        \"\"\"\n        return self.limit is None",
+  "        Return if True if operator can be eliminated from interior of chain.\n        \"\"\"\n        return self.limit is not None")
+v("c06-twin-len-truthiness", "C06", DOU,
+  "    if len(ops1_columns_used.intersection(ops2_columns_produced)) > 0:\n        return None\n    if len(ops2_columns_used",
+  "    if ops1_columns_used.intersection(ops2_columns_produced):\n        return None\n    if len(ops2_columns_used", expect="silent")
+v("c06-twin-not-limit", "C06", VR,
+  "        Return if True if operator can be eliminated from interior of chain.\n        \"\"\"\n        return self.limit is None",
+  "        Return if True if operator can be eliminated from interior of chain.\n        \"\"\"\n        return not (self.limit is not None)", expect="silent")
+
+# ---------------------------------------------------------------- C10
+v("c10-extend-drops-order_by", "C10", VR,
+  "columns_we_take = using.union(self.partition_by, self.order_by, self.reverse)", "columns_we_take = using.union(self.partition_by, self.reverse)")
+v("c10-extend-drops-partition_by", "C10", VR,
+  "columns_we_take = using.union(self.partition_by, self.order_by, self.reverse)", "columns_we_take = using.union(self.order_by, self.reverse)")
+v("c10-extend-no-op-columns", "C10", VR,
+  "        columns_we_take = columns_we_take - subops.keys()\n        for k, o in subops.items():\n            o.get_column_names(columns_we_take)\n        return [\n            OrderedSet(",
+  "        columns_we_take = columns_we_take - subops.keys()\n        return [\n            OrderedSet(")
+v("c10-selectrows-intersects-decision", "C10", VR,
+  "        columns_we_take = ordered_intersect(columns_we_take, using)\n        columns_we_take = ordered_union(columns_we_take, self.decision_columns)",
+  "        columns_we_take = ordered_union(columns_we_take, self.decision_columns)\n        columns_we_take = ordered_intersect(columns_we_take, using)")
+v("c10-order-drops-order-columns", "C10", VR,
+  "        cols = cols.intersection(using).union(self.order_columns)", "        cols = cols.intersection(using)")
+v("c10-join-drops-on_b", "C10", VR,
+  "        using = using.union(self.on_a).union(self.on_b)\n        return [", "        using = using.union(self.on_a)\n        return [")
+v("c10-project-drops-group_by", "C10", VR,
+  "        columns_we_take = set(self.group_by)\n        for k, o in subops.items():", "        columns_we_take = set()\n        for k, o in subops.items():")
+v("c10-rename-identity", "C10", VR,
+  "        cols = [\n            (k if k not in self.column_remapping.keys() else self.column_remapping[k])\n            for k in using_tuple\n        ]\n        return [OrderedSet(cols)]",
+  "        cols = [k for k in using_tuple]\n        return [OrderedSet(cols)]")
+v("c10-map-uses-forward-map", "C10", VR,
+  "        reverse_mapping = {v: k for k, v in self.column_remapping.items()}\n        rev_keys", "        reverse_mapping = {k: v for k, v in self.column_remapping.items()}\n        rev_keys")
+v("c10-impl-overwrites-record", "C10", VR,
+  "            crec.update(using)\n        cu_list", "            crec = OrderedSet(using)\n        cu_list")
+v("c10-impl-first-source-only", "C10", VR,
+  "        for i in range(len(self.sources)):\n            self.sources[i].columns_used_implementation_(\n                using=cu_list[i],",
+  "        for i in range(min(1, len(self.sources))):\n            self.sources[i].columns_used_implementation_(\n                using=cu_list[i],")
+v("c10-sql-select-rows-passes-using", "C10", "sql_model.py",
+  "        subsql = select_rows_node.sources[0].to_near_sql_implementation_(\n            db_model=self, using=subusing, temp_id_source=temp_id_source",
+  "        subsql = select_rows_node.sources[0].to_near_sql_implementation_(\n            db_model=self, using=using, temp_id_source=temp_id_source")
+v("c10-twin-union-order", "C10", VR,
+  "columns_we_take = using.union(self.partition_by, self.order_by, self.reverse)", "columns_we_take = using.union(self.reverse, self.order_by, self.partition_by)",
+  expect="silent")
+v("c10-twin-bitor", "C10", VR,
+  "        cols = cols.intersection(using).union(self.order_columns)", "        cols = (cols & set(using)) | set(self.order_columns)", expect="silent")
